@@ -1,5 +1,6 @@
 """Program model over mirfacts JSON: bodies, configuration-pruned CFGs,
 dominators, definition chasing, call graph."""
+import re
 import collections
 import functools
 
@@ -590,6 +591,29 @@ class BodyView:
                 continue
             return ("rv", rv, bi)
         return ("multi", -1)
+
+
+_SOLE_CALLER = {}
+
+
+def sole_caller(prog, key):
+    """The one function that calls the private, non-trait function `key` (closures count for their root function),
+    or None.  A helper extracted from a function is still that function's code: reviewed rows follow it."""
+    memo = _SOLE_CALLER.setdefault(id(prog), {})
+    if not memo:
+        cg = CallGraph(prog)
+        rev = collections.defaultdict(set)
+        for src, dsts in cg.edges.items():
+            root = re.sub(r"(::\{closure#\d+\})+$", "", src)
+            for d in dsts:
+                if re.sub(r"(::\{closure#\d+\})+$", "", d) != root:
+                    rev[d].add(root)
+        memo["_rev"] = rev
+    b = prog.bodies.get(key)
+    if b is None or b["kind"] not in ("Fn", "AssocFn") or b.get("vis") == "pub" or (prog.impl_of(b) or {}).get("trait"):
+        return None
+    callers = memo["_rev"].get(key, set())
+    return next(iter(callers)) if len(callers) == 1 else None
 
 
 class CallGraph:
